@@ -52,6 +52,13 @@ class FlowModel:
             m.add_variable("x", ctx.real(prefix + "i_x"))
             m.add_reaction("vin", R.mass_action_0s, args=["kin"], stoichiometry={"x": 1})
             m.add_reaction("v", R.mass_action_1s, args=["x", "k"], stoichiometry={"x": -1})
+        elif self.kind == "moiety":  # closed a <-> b: the steady state depends on the start state (conserved total)
+            m.add_parameter("kf", ctx.real(prefix + "p_kf"))
+            m.add_parameter("kr", ctx.real(prefix + "p_kr"))
+            m.add_variable("a", ctx.real(prefix + "i_a"))
+            m.add_variable("b", ctx.real(prefix + "i_b"))
+            m.add_reaction("vf", R.mass_action_1s, args=["a", "kf"], stoichiometry={"a": -1, "b": 1})
+            m.add_reaction("vr", R.mass_action_1s, args=["b", "kr"], stoichiometry={"b": -1, "a": 1})
         elif self.kind == "ia_decay":  # parameter defined by an initial assignment from a variable
             from mxlpy.types import InitialAssignment
 
@@ -91,6 +98,14 @@ class FlowModel:
                 return [y0[0] + kin * dt]
             ss = kin / k
             return [ss + (y0[0] - ss) * _exp(-k * dt)]
+        if self.kind == "moiety":
+            kf, kr = p["kf"], p["kr"]
+            tot = y0[0] + y0[1]
+            if kf + kr == 0:
+                return list(y0)
+            a_ss = tot * kr / (kf + kr)
+            a = a_ss + (y0[0] - a_ss) * _exp(-(kf + kr) * dt)
+            return [a, tot - a]
         if self.kind == "chain":
             k1, k2 = p["k1"], p["k2"]
             x = y0[0] * _exp(-k1 * dt)
